@@ -1,4 +1,6 @@
 import LlgoVerif.Lemmas.PyGuard
+import LlgoVerif.Lemmas.PySyms
+import LlgoVerif.Lemmas.PyCache
 /-!
 # C19 — Go and Python exchange values and calls without loss
 
@@ -193,6 +195,213 @@ theorem guard_full_without_declonly_counterexample : ¬ GuardFullWithoutDeclOnly
     (by intro p hp; simp at hp; rcases hp with h | h <;> subst h <;> decide) (by decide) (by decide)
   rw [cexHelper_fails] at hs
   cases hs
+
+/-! ## Which symbols a package loads, and how (ssa/python.go `pyLoadModSyms`, cl/compile.go rounds)
+
+`import_once_before_use` takes the list of `llgoLoadPyModSyms` pairs of a package as given (`Pkg.loads`) and
+ASSUMES it covers the functions the package calls (`loadsOkPkg`).  The theorems below are about the compiler
+code that produces that list — for arbitrary dotted module names (a module and its submodules used side by
+side) and arbitrary compile rounds (bodies that exist only because another body mentions them). -/
+
+/-- **Symbol loads are exact.**  For EVERY set of symbol names `pyLoadModSyms` accepts: each emitted pair
+    `(attr, &var)` of a call on module variable `M` satisfies `var = M.attr` with a dot-free `attr` — the C helper's
+    `PyObject_GetAttrString(M, attr)` is the plain attribute lookup CPython itself performs for `M.attr`, on the
+    module the name says (never the parent of a submodule) — the variable is one of the package's symbols, and
+    every symbol of the package is in some call. -/
+theorem loadSyms_exact (pyobjs : List Name) (calls : List LoadCall) (h : pyLoadModSyms pyobjs = some calls) :
+    (∀ c ∈ calls, ∀ p ∈ c.pairs, p.2 = c.modVar ++ '.' :: p.1 ∧ '.' ∉ p.1 ∧ p.2 ∈ pyobjs) ∧
+    (∀ n ∈ pyobjs, ∃ c ∈ calls, ∃ attr, (attr, n) ∈ c.pairs) := by
+  unfold pyLoadModSyms at h
+  cases hf : (sortNames pyobjs).foldlM groupStep {} with
+  | none => simp [hf] at h
+  | some acc =>
+    simp only [hf] at h
+    injection h with h
+    subst h
+    have hi : GInvS (sortNames pyobjs) acc := by
+      have := group_fold_inv (sortNames pyobjs) [] {} acc ginvS_init hf
+      simpa using this
+    constructor
+    · intro c hc p hp
+      simp only [List.mem_map] at hc
+      obtain ⟨m, _, hcm⟩ := hc
+      subst hcm
+      simp only [pyLoadModSymsCall, List.mem_map] at hp
+      obtain ⟨full, hfull, hpe⟩ := hp
+      subst hpe
+      obtain ⟨hseen, a, hsp⟩ := hi.sound m full hfull
+      obtain ⟨he, hnd⟩ := splitLast_spec full m a hsp
+      simp only [pyLoadModSymsCall]
+      refine ⟨?_, ?_, mem_sortNames.1 hseen⟩
+      · rw [he, drop_len_succ]
+      · rw [he, drop_len_succ]; exact hnd
+    · intro n hn
+      obtain ⟨m, _, hmn, hg⟩ := hi.complete n (mem_sortNames.2 hn)
+      refine ⟨pyLoadModSymsCall m (getOf acc.mods m), List.mem_map.2 ⟨m, hmn, rfl⟩, n.drop (m.length + 1), ?_⟩
+      simp only [pyLoadModSymsCall, List.mem_map]
+      exact ⟨n, hg, rfl⟩
+
+/-- `pyLoadModSyms` does not panic on llgo's names: each is `__llgo_py.<module>.<attr>`, in particular
+    `<non-empty prefix>.<rest>` -/
+theorem loadSyms_total (pyobjs : List Name) (h : ∀ n ∈ pyobjs, ∃ p r, p ≠ [] ∧ n = p ++ '.' :: r) :
+    (pyLoadModSyms pyobjs).isSome = true := by
+  unfold pyLoadModSyms
+  have := group_fold_total (sortNames pyobjs) {} (fun n hn => by
+    obtain ⟨p, r, hp, e⟩ := h n (mem_sortNames.1 hn)
+    rw [e]; exact modOf_isSome_of_dotted p r hp)
+  cases hf : (sortNames pyobjs).foldlM groupStep {} with
+  | none => simp [hf] at this
+  | some acc => rfl
+
+/-- a module, its submodule and a sibling with the same textual prefix, with symbols of the parent before AND
+    after the submodule's in sorted order (`os.getcwd < os.path.join < os.uname < oss.f`) -/
+def exNames : List Name :=
+  ["__llgo_py.os.uname".toList, "__llgo_py.os.path.join".toList, "__llgo_py.oss.f".toList, "__llgo_py.os.getcwd".toList]
+
+example : (pyLoadModSyms exNames).isSome = true :=
+  loadSyms_total exNames (by
+    intro n hn
+    refine ⟨"__llgo_py".toList, n.drop 10, by decide, ?_⟩
+    simp only [exNames, List.mem_cons, List.not_mem_nil, or_false] at hn
+    rcases hn with h | h | h | h <;> subst h <;> decide)
+
+example : pyLoadModSyms exNames = some [
+    ⟨"__llgo_py.os".toList, [("getcwd".toList, "__llgo_py.os.getcwd".toList), ("uname".toList, "__llgo_py.os.uname".toList)]⟩,
+    ⟨"__llgo_py.os.path".toList, [("join".toList, "__llgo_py.os.path.join".toList)]⟩,
+    ⟨"__llgo_py.os".toList, [("getcwd".toList, "__llgo_py.os.getcwd".toList), ("uname".toList, "__llgo_py.os.uname".toList)]⟩,
+    ⟨"__llgo_py.oss".toList, [("f".toList, "__llgo_py.oss.f".toList)]⟩] := by decide
+
+/-- **Every round counts.**  For EVERY package (any bodies, any "this body makes that body exist" relation, any
+    number of rounds): when `NewPackageEx` is done, the symbol loads emitted into `init` contain — as an exact
+    pair, see `loadSyms_exact` — every Python function mentioned by ANY compiled body, whether the body was
+    queued by `processPkg` or came into existence in a later round (generic instances, wrappers), and nothing
+    that no compiled body mentions. -/
+theorem package_loads_cover_every_round (B : Nat → Body) (roots : List Nat) (fuel : Nat) (calls : List LoadCall)
+    (h : newPackageLoads B roots fuel = some (some calls)) :
+    (∀ i, Reach B roots i → ∀ n ∈ (B i).pyRefs,
+      ∃ c ∈ calls, ∃ attr, (attr, n) ∈ c.pairs ∧ n = c.modVar ++ '.' :: attr ∧ '.' ∉ attr) ∧
+    (∀ c ∈ calls, ∀ p ∈ c.pairs, ∃ i, Reach B roots i ∧ p.2 ∈ (B i).pyRefs) := by
+  unfold newPackageLoads at h
+  cases hr : rounds B fuel (roots.foldl enqueue {}) with
+  | none => simp [hr] at h
+  | some st =>
+    simp only [hr] at h
+    injection h with h
+    obtain ⟨hinv, hq⟩ := rounds_inv B roots fuel _ st (cinv_init B roots) hr
+    have hall := reach_built hinv hq
+    unfold afterInit at h
+    by_cases he : st.pyobjs.isEmpty = true
+    · simp only [he, if_true] at h
+      injection h with h
+      subst h
+      constructor
+      · intro i hi n hn
+        have := (hall i hi).2.1 n hn
+        rw [List.isEmpty_iff.1 he] at this
+        cases this
+      · intro c hc; cases hc
+    · simp only [he, Bool.false_eq_true, if_false] at h
+      obtain ⟨h1, h2⟩ := loadSyms_exact st.pyobjs calls h
+      constructor
+      · intro i hi n hn
+        obtain ⟨c, hc, attr, hp⟩ := h2 n ((hall i hi).2.1 n hn)
+        obtain ⟨e1, e2, _⟩ := h1 c hc (attr, n) hp
+        exact ⟨c, hc, attr, hp, e1, e2⟩
+      · intro c hc p hp
+        exact hinv.objs p.2 (h1 c hc p hp).2.2
+
+/-- a plain function (0) mentions `m.f` and instantiates a generic (1) that mentions `m.sub.g` and instantiates
+    another generic (2, third round) that mentions `m.h`; body 3 is never referred to -/
+def exBodies : Nat → Body
+  | 0 => { pyRefs := ["__llgo_py.m.f".toList], spawns := [1] }
+  | 1 => { pyRefs := ["__llgo_py.m.sub.g".toList], spawns := [2, 1] }
+  | 2 => { pyRefs := ["__llgo_py.m.h".toList] }
+  | _ => { pyRefs := ["__llgo_py.m.unused".toList] }
+
+example : newPackageLoads exBodies [0] 4 = some (some [
+    ⟨"__llgo_py.m".toList, [("f".toList, "__llgo_py.m.f".toList), ("h".toList, "__llgo_py.m.h".toList)]⟩,
+    ⟨"__llgo_py.m.sub".toList, [("g".toList, "__llgo_py.m.sub.g".toList)]⟩]) := by decide
+
+/-! ## `Py_Initialize` in the entry function, build after build over one cache (internal/build) -/
+
+/-- **The interpreter is started whatever the cache holds.**  For EVERY content of the cache directory and every
+    program: if some compiled (ordinary or binding) package needs the interpreter, `linkMainPkg` asks for
+    `Py_Initialize` — `buildOne` takes the flag from the package compiled NOW, hit or miss. -/
+theorem pyInit_whatever_the_cache (c : Cache) (pkgs : List BPkg) (h : progNeedsPy pkgs = true) :
+    (build c pkgs).2.pyInit = true := by
+  simp only [build, linkMain]
+  exact buildAll_needPy pkgs c h
+
+/-- **… in every build of every history.**  Successive builds (the same program rebuilt with a warm cache,
+    edited, other programs sharing packages …) over one cache directory that starts in ANY state. -/
+theorem pyInit_every_build_of_history : ∀ (hist : List (List BPkg)) (c : Cache),
+    ∀ pe ∈ hist.zip (buildHistory c hist), progNeedsPy pe.1 = true → pe.2.pyInit = true := by
+  intro hist
+  induction hist with
+  | nil => intro c pe h; simp [buildHistory] at h
+  | cons p ps ih =>
+    intro c pe h hn
+    simp only [buildHistory, List.zip_cons_cons, List.mem_cons] at h
+    rcases h with h | h
+    · subst h; exact pyInit_whatever_the_cache c p hn
+    · exact ih _ pe h hn
+
+example : progNeedsPy [{ id := 0, needPy := true }, { id := 1, isMain := true }] = true := by decide
+
+/-- a helper package that needs ONLY the interpreter (no runtime, no link arguments) and a `main` that does
+    not: cold build, warm rebuild, rebuild after the helper's manifest lost its metadata section -/
+example : buildHistory [((0, 7), none)]
+    [[{ id := 0, fp := 5, needPy := true }, { id := 1, isMain := true }],
+     [{ id := 0, fp := 5, needPy := true }, { id := 1, isMain := true }],
+     [{ id := 0, fp := 7, needPy := true }, { id := 1, isMain := true }]] =
+    [⟨false, true, []⟩, ⟨false, true, []⟩, ⟨false, true, []⟩] := by decide
+
+/-- **What is stored comes back.**  `saveToCache` followed by `tryLoadFromCache` of the same (package,
+    fingerprint) restores exactly the link arguments and both flags — in particular a package whose ONLY
+    non-default property is `NeedPyInit` keeps it (the metadata section is dropped only when all three are
+    default). -/
+theorem cache_roundtrip (c : Cache) (k : BPkg) (a a0 : APkg) (hm : k.isMain = false) :
+    tryLoadFromCache (saveToCache c k a) k a0 =
+      { a0 with linkArgs := a.linkArgs, needRt := a.needRt, needPyInit := a.needPyInit, cacheHit := true } := by
+  unfold tryLoadFromCache
+  rw [lookup_saved c k a hm]
+  obtain ⟨h1, h2, h3⟩ := metaOf_getD a
+  simp only [h1, h2, h3]
+
+example : tryLoadFromCache (saveToCache [] { id := 3, fp := 9 } { needPyInit := true }) { id := 3, fp := 9 } {} =
+    { needPyInit := true, cacheHit := true } := by decide
+
+/-- **The cache stays truthful.**  If every entry of the cache carries the flags compiling that (package,
+    fingerprint) yields (`F`), a build of packages described by `F` leaves such a cache — so the flags a hit
+    restores always equal the flags `buildOne` recomputes (`restored_flags_agree`), build after build. -/
+theorem cache_stays_truthful (F : Nat × Nat → Bool × Bool) (c : Cache) (pkgs : List BPkg) (h : CacheOk F c)
+    (hd : ∀ k ∈ pkgs, Describes F k) : CacheOk F (build c pkgs).1 :=
+  buildAll_cacheOk pkgs c h hd
+
+theorem restored_flags_agree (F : Nat × Nat → Bool × Bool) (c : Cache) (k : BPkg) (h : CacheOk F c)
+    (hk : k.kind = .ordinary) (hd : Describes F k) (hit : (tryLoadFromCache c k {}).cacheHit = true) :
+    (tryLoadFromCache c k {}).needRt = k.needRt ∧ (tryLoadFromCache c k {}).needPyInit = k.needPy := by
+  unfold Describes at hd
+  simp only [hk] at hd
+  unfold tryLoadFromCache at hit ⊢
+  cases hl : c.lookup (k.id, k.fp) with
+  | none => simp [hl] at hit
+  | some md =>
+    obtain ⟨h1, h2⟩ := h (k.id, k.fp) md hl
+    simp only [hd] at h1 h2
+    exact ⟨h1, h2⟩
+
+example : CacheOk (fun _ => (false, true)) [((0, 5), some { needPyInit := true })] := by
+  intro key md h
+  simp only [List.lookup_cons, List.lookup_nil] at h
+  split at h
+  · injection h with h; subst h; exact ⟨rfl, rfl⟩
+  · cases h
+
+example : Describes (fun _ => (false, true)) { id := 0, fp := 5, needPy := true } := rfl
+
+example : (tryLoadFromCache [((0, 5), some { needPyInit := true })] { id := 0, fp := 5, needPy := true } {}).cacheHit = true := by
+  decide
 
 /-! ## Argument order -/
 
